@@ -127,8 +127,8 @@ def check(ctx):
             ok = ok and src(v).replace("(", "").replace(")", "") in (NOT, "True if %s else False" % NOT) and \
                 formula_equiv(path_condition(M, n, start=entry, by_value=False), "True")
     # ... and the Nact wrapper is applied exactly when the flag is set
-    from ..rules import local_condition
-    ok = ok and formula_equiv(("or", [local_condition(M, w, by_value=False) for w in wrap]), "negate")
+    from ..rules import group_condition
+    ok = ok and formula_equiv(group_condition(M, wrap, by_value=False), "negate")
     ctx.check(ok, "T9-args", mn, "makeNeed wraps in Nact iff the `not` token was consumed", "negation must follow the script")
     # ... and no form of need gets out of makeNeed without passing the negation decision: every return of a built act is
     # preceded, on every path, by the test of `negate`
